@@ -154,7 +154,8 @@ def run(ck):
     casts = [e for e in ws.events("cast") if (e.get("to") or "") == "int" and "code" in ((e.get("sub") or {}).get("t") or "")]
     ck.ob("C02-R2", "server-writes-decimal-code", bool(casts), ws.loc, ws, "os << static_cast<int>(code)")
     # the reader delimits the code with match_until(' '): the writer puts a space behind it on every path, reason phrase or not
-    code_ins = [e for e in ws.events("call") if e.get("op") == "<<" and any(c_.block == e.block and c_.idx < e.idx and (c_.get("t") or "") in (e.get("t") or "") for c_ in casts)]
+    # (the insertion whose right operand is the cast -- in a chain `os << a << int(code) << ' ' << ...` every outer << contains its text)
+    code_ins = [e for e in ws.events("call") if e.get("op") == "<<" and any(c_.block == e.block and c_.idx < e.idx and (c_.get("t") or "") in ((e.get("args") or [{}])[-1].get("t") or "") for c_ in casts)]
     is_space = lambda e: e["k"] == "call" and e.get("op") == "<<" and any(a_.get("const") in ("c:32", "s: ") or (isinstance(a_.get("const"), str) and a_["const"].startswith("s: ")) for a_ in e.get("args", [])[-1:])
     delim = lib.single(prog, H + "Private::ResponseLineStep::apply")
     needs_space = any(a_.get("const") == "c:32" for e in delim.calls(lambda e: (e.get("callee") or "") == "Pistache::match_until") for a_ in e.get("args", [])[:1])
